@@ -150,7 +150,7 @@ mutual
           split
           · exact ih h.2
           · have : (Key.s k != Key.s typeKey) = true := by
-              simp only [bne_iff_ne, ne_eq, Key.s.injEq]; exact h.1.1
+              simp only [bne_iff_ne, ne_eq, Key.s.injEq]; exact h.1.1.1
             simp only [List.filter, this]
             rw [ih h.2]
       simp only [toJson, fromJ, jlookup, if_true, fromJKV, hl]
